@@ -316,6 +316,7 @@ def real_projection(cls, text, c, name="m", ex=None):
     binds = arm[0][2] if arm else None
     call = arm[0][3]["call"] if arm else None
     call_args = [a[1] for a in call[3]] if call and call[0] == "UMethod" else None
+    awaited = arm[0][3]["await"] if arm else None
     if c["ret"]:
         # the reply sender the generator appends is not a user parameter
         fields, msg_fields = fields[:-1], msg_fields[:-1]
@@ -334,7 +335,7 @@ def real_projection(cls, text, c, name="m", ex=None):
         tail = "?"
     return {"cls": "OK", "params": [(p[0], ns(p[1])) for p in lm["params"]], "ret": ns(lm["ret"]), "pre": pre, "fields": fields, "tail": tail,
             "routing": msg_self_named and msg_fields == [f[0] for f in fields] and binds == msg_fields and call_args == msg_fields,
-            "routing_detail": {"msg": msg_fields, "binds": binds, "call_args": call_args}}
+            "routing_detail": {"msg": msg_fields, "binds": binds, "call_args": call_args}, "awaited": awaited}
 
 
 def model_projection(shown, c):
@@ -388,6 +389,9 @@ def oracle(c, real):
         bad.append("message fields %s are not all parameters in their order" % (real["fields"],))
     if not real["routing"]:
         bad.append("message fields are not handed to the actor method by position: %s" % real["routing_detail"])
+    if real.get("awaited") is not None and real["awaited"] != bool(c["async"]):
+        bad.append("the dispatch arm %s the call of %s user method: %s" % ("awaits" if real["awaited"] else "does not await", "an `async fn`" if c["async"] else "a plain `fn`",
+                   "the method's future is dropped, its body never runs and the channel end / values it was given are lost" if c["async"] else "the expansion does not compile"))
     getters = ["g:%s:inter_get_%s" % (p["tree"][1], p["tree"][1][6:]) for p in ps if p["kind"] == "G"] if inter else []
     if [x for x in real["pre"] if x.startswith("g:")] != getters:
         bad.append("getter reads %s, expected %s" % (real["pre"], getters))
